@@ -7,10 +7,18 @@ Open Scope list_scope.
 
 (* one escaped byte is read back as that byte: finite sweep over the 256 byte values, for each delimiter *)
 Lemma eval_esc_q1 c rest : eval_body q1 (esc q1 c ++ rest) = option_map (cons c) (eval_body q1 rest).
-Proof. destruct c; vm_compute; reflexivity. Qed.
+Proof.
+  destruct c;
+    match goal with |- context [esc ?q ?c] => let e := eval vm_compute in (esc q c) in change (esc q c) with e end;
+    reflexivity.
+Qed.
 
 Lemma eval_esc_q2 c rest : eval_body q2 (esc q2 c ++ rest) = option_map (cons c) (eval_body q2 rest).
-Proof. destruct c; vm_compute; reflexivity. Qed.
+Proof.
+  destruct c;
+    match goal with |- context [esc ?q ?c] => let e := eval vm_compute in (esc q c) in change (esc q c) with e end;
+    reflexivity.
+Qed.
 
 Lemma eval_body_q1 b : eval_body q1 (flat_map (esc q1) b ++ [q1]) = Some b.
 Proof.
